@@ -109,7 +109,7 @@ def step (d : DState) (line : String) : DState × Option String :=
       match rest.mapM atomStr with
       | some toks => (d, some ((utilStep (op :: toks)).getD "bad-op"))
       | none => (d, some "bad-op")
-    else if ["life", "cmp", "uh"].contains op then
+    else if ["life", "cmp", "uh", "tl"].contains op then
       match rest.mapM atomStr with
       | some toks => (d, some ((lifeStep (op :: toks)).getD "bad-op"))
       | none => (d, some "bad-op")
